@@ -93,6 +93,11 @@ func (w *worldD) gate() {
 	}
 	w.gated = true
 	w.db.SetGate(func(req *pgsim.Request) pgsim.Action {
+		// prepare-only round trips (pgx statement cache misses) depend on which pooled connection a
+		// goroutine happened to get and have no effect: they are not scheduling points
+		if req.Prepare {
+			return pgsim.Proceed
+		}
 		v := w.s.Park("node", "db", sqlKey(req), req)
 		if a, ok := v.(pgsim.Action); ok {
 			return a
